@@ -14,6 +14,9 @@ Inductive case :=
   (* the writer Queryer.Query really installs for a sub-query, as a handler of the sub-pipeline
      sees it: the transport's remote and the chain writer's Internal() *)
 | CaseSubquery (r : remote) (internal : bool)
+  (* a transport that computes its own Internal() from its peer address (internal/mock.Writer: what
+     server.ServeHTTP builds for every DoH / DoH3 request): the remote it reports, incl. what it says *)
+| CaseTransportSays (r : remote)
   (* access list through the real handler, the chain's writer bound to a transport reporting
      this remote: outcome 0 = Next called and nothing written,
      1 = cancelled: Next not called and nothing written, anything else = something else *)
@@ -97,6 +100,7 @@ Definition check_case (c : case) : bool :=
   | CaseWriter r internal rip =>
       Bool.eqb (writer_internal r) internal && opt_addr_eqb (writer_remote_ip r) rip
   | CaseSubquery r internal => remote_eqb r subquery_remote && Bool.eqb (writer_internal r) internal
+  | CaseTransportSays r => opt_bool_eqb (r_says r) (Some (transport_says r))
   | CaseAcl ne ps r outcome =>
       all_ok ps && match acl_serve_remote (new_set (acl_effective ne ps)) r with AclNext => outcome =? 0 | AclDrop => outcome =? 1 end
   | CaseView views r answered =>
@@ -127,6 +131,9 @@ Definition spec_case (c : case) : bool :=
       (* client policy is skipped for genuine sub-queries ONLY: on every transport address type *)
       Bool.eqb (spec_subquery r) internal && opt_addr_eqb (spec_client_ip r) rip
   | CaseSubquery r internal => internal && spec_subquery r
+  | CaseTransportSays r =>
+      (* such a transport declares internal exactly the sub-query signature, nothing else *)
+      opt_bool_eqb (r_says r) (Some (spec_subquery (mk_remote (r_kind r) (r_ip r) (r_port r) None)))
   | CaseAcl ne ps r outcome =>
       if spec_allowed (acl_effective ne ps) r then outcome =? 0 else outcome =? 1
   | CaseView views r answered =>
